@@ -1,10 +1,12 @@
 import EyeballVerif.Driver.Text
 import EyeballVerif.Driver.Vec
 import EyeballVerif.Driver.Adp
+import EyeballVerif.Driver.Obs
 open EV
 
 structure DState where
   adp : AdpSt := {}
+  obs : ObsDrv := {}
 
 def stepLine (st : DState) (line : String) : DState × String :=
   let toks := (line.trimAscii.toString.splitOn " ").filter (· ≠ "")
@@ -18,6 +20,9 @@ def stepLine (st : DState) (line : String) : DState × String :=
     | some f, some d, some l => (st, (d.map f).show ++ " " ++ showOptList ((d.map f).apply (l.map f)))
     | _, _, _ => (st, "bad-op")
   | _ =>
+    match obsStep st.obs toks with
+    | some (obs, out) => ({ st with obs }, out)
+    | none =>
     match adpStep st.adp toks with
     | some (adp, out) => ({ st with adp }, out)
     | none => (st, "bad-op")
